@@ -1,6 +1,7 @@
 package main
 
 import (
+	"sort"
 	"fmt"
 	"go/token"
 	"go/types"
@@ -180,7 +181,14 @@ func (fr *Frame) defaultCall(st *State, call ssa.CallInstruction, key string, si
 		rt := sig.Results().At(i).Type()
 		rs := vc.sortOf(rt)
 		var r Term
-		if pure && allSimple && rs != "Ref" && rs != "Slice" {
+		if pure && allSimple && rs == "Slice" && isByteSlice(rt) {
+			f := fmt.Sprintf("ext_%s_%d", sanitize(key), i)
+			vc.sc.DeclFun(f, sorts, "String")
+			base := vc.alloc(st, fr.prefix+"bytes")
+			r = vc.sc.Fresh(fr.prefix+"r_"+shortName(key), "Slice")
+			content := sx(f, args...)
+			vc.sc.Def(And(Eq(r, vc.mkSlice(base, sx("str.len", content), sx("str.len", content))), Eq(sx("bstr", r), content)))
+		} else if pure && allSimple && rs != "Ref" && rs != "Slice" {
 			f := fmt.Sprintf("ext_%s_%d", sanitize(key), i)
 			if len(args) == 0 {
 				r = vc.sc.DeclConst(f, rs)
@@ -273,14 +281,14 @@ func (fr *Frame) havocArgs(st *State, argVals []ssa.Value, args []Term, deep boo
 				kt := keys[k]
 				aa := a
 				vc.havoc(st, k, "(Array Ref "+vc.sortOf(kt)+")", func(x Term) Term {
-					return Eq(sx("root", x), sx("root", sx("s-base", aa)))
+					return Eq(sx("root", x), sx("root", vc.sptr(aa)))
 				})
 			}
 		case *types.Interface:
 			if isContextType(t) || isErrorType(t) {
 				continue
 			}
-			vc.havocOS(st, a)
+			vc.havocOS(st, a, t)
 		case *types.Map:
 			mt := u
 			kv, kin := mapKeys(mt)
@@ -290,7 +298,7 @@ func (fr *Frame) havocArgs(st *State, argVals []ssa.Value, args []Term, deep boo
 			vc.havoc(st, kin, "(Array Ref (Array "+ks+" Bool))", func(x Term) Term { return Eq(x, aa) })
 		}
 		if isTypeParam(t) {
-			vc.havocOS(st, a)
+			vc.havocOS(st, a, t)
 		}
 	}
 }
@@ -312,17 +320,125 @@ func isContextOrImmutable(t types.Type) bool {
 
 const osSort = "(Array Val Int)"
 
-func (vc *VC) osOf(st *State, recv Term) Term {
-	m := vc.getMem(st, "OS", osSort)
+// Abstract object state of interface values is split into facets, one per named interface that
+// declares methods: a pure method declared in interface K reads facet K of its receiver; an
+// effectful call through static type I changes the facets of every interface related to I (one's
+// method set includes the other's). Values used through unrelated interfaces are assumed not to
+// be affected (they are different objects in any sensible program; listed as assumption).
+func osKey(iface string) string { return "OS:" + iface }
+
+func (vc *VC) osOfFacet(st *State, facet string, recv Term) Term {
+	m := vc.getMem(st, osKey(facet), osSort)
 	return sx("select", m, recv)
 }
 
-func (vc *VC) havocOS(st *State, recv Term) {
-	m := vc.getMem(st, "OS", osSort)
-	nm := vc.newMemVersion("OS")
-	fresh := vc.sc.Fresh("os", "Int")
-	vc.sc.Def(Eq(nm, sx("store", m, recv, fresh)))
-	st.mem["OS"] = nm
+// declaringIface: the named interface in which method m is declared.
+func declaringIface(m *types.Func) string {
+	sig := m.Type().(*types.Signature)
+	if r := sig.Recv(); r != nil {
+		if n, ok := types.Unalias(r.Type()).(*types.Named); ok {
+			return qualifier(n.Obj().Pkg()) + "." + n.Obj().Name()
+		}
+	}
+	return "iface"
+}
+
+func methodNames(t types.Type) map[string]bool {
+	out := map[string]bool{}
+	t = types.Unalias(t)
+	if tp, ok := t.(*types.TypeParam); ok {
+		t = tp.Constraint()
+	}
+	it, ok := t.Underlying().(*types.Interface)
+	if !ok {
+		return out
+	}
+	for i := 0; i < it.NumMethods(); i++ {
+		out[it.Method(i).Name()] = true
+	}
+	return out
+}
+
+func subsetOf(a, b map[string]bool) bool {
+	for k := range a {
+		if !b[k] {
+			return false
+		}
+	}
+	return true
+}
+
+// havocOS: an effectful use of recv through static type t.
+func (vc *VC) havocOS(st *State, recv Term, t types.Type) {
+	ms := map[string]bool{}
+	if t != nil {
+		ms = methodNames(t)
+	}
+	vc.Assumed["interface values used through unrelated interfaces are distinct objects (abstract state facets)"] = true
+	if t == nil || len(ms) == 0 {
+		key := osKey("$target")
+		m := vc.getMem(st, key, osSort)
+		nm := vc.newMemVersion(key)
+		fresh := vc.sc.Fresh("os", "Int")
+		vc.sc.Def(Eq(nm, sx("store", m, recv, fresh)))
+		st.mem[key] = nm
+	}
+	for _, fi := range vc.P.ifaceFacets() {
+		if t != nil && !(subsetOf(ms, fi.methods) || subsetOf(fi.methods, ms)) {
+			continue
+		}
+		key := osKey(fi.name)
+		m := vc.getMem(st, key, osSort)
+		nm := vc.newMemVersion(key)
+		fresh := vc.sc.Fresh("os", "Int")
+		vc.sc.Def(Eq(nm, sx("store", m, recv, fresh)))
+		st.mem[key] = nm
+	}
+}
+
+type ifaceFacet struct {
+	name    string
+	methods map[string]bool
+}
+
+// ifaceFacets: every named interface (module and dependencies used by the module) with methods.
+func (P *Program) ifaceFacets() []ifaceFacet {
+	P.facetOnce.Do(func() {
+		seen := map[string]bool{}
+		var add func(pkg *types.Package)
+		add = func(pkg *types.Package) {
+			sc := pkg.Scope()
+			for _, n := range sc.Names() {
+				tn, ok := sc.Lookup(n).(*types.TypeName)
+				if !ok {
+					continue
+				}
+				it, ok := tn.Type().Underlying().(*types.Interface)
+				if !ok || it.NumMethods() == 0 {
+					continue
+				}
+				if _, isTP := tn.Type().(*types.TypeParam); isTP {
+					continue
+				}
+				name := qualifier(pkg) + "." + tn.Name()
+				if seen[name] {
+					continue
+				}
+				seen[name] = true
+				P.facets = append(P.facets, ifaceFacet{name: name, methods: methodNames(tn.Type())})
+			}
+		}
+		for path, sp := range P.SSA {
+			if strings.HasPrefix(path, modPath+"/pkg/") {
+				add(sp.Pkg)
+				for _, imp := range sp.Pkg.Imports() {
+					add(imp)
+				}
+			}
+		}
+		sort.Slice(P.facets, func(i, j int) bool { return P.facets[i].name < P.facets[j].name })
+	})
+	return P.facets
 }
 
 // ifaceMethodKey: "op.Client.GetID" for a method declared in a named interface.
@@ -405,7 +521,7 @@ func (fr *Frame) invoke(st *State, call ssa.CallInstruction) []Term {
 	}
 	// effectful method without contract
 	clkBefore := vc.bumpClock(st)
-	vc.havocOS(st, recv)
+	vc.havocOS(st, recv, c.Value.Type())
 	fr.havocArgs(st, c.Args, args, false, clkBefore)
 	var res []Term
 	for i := 0; i < sig.Results().Len(); i++ {
@@ -414,7 +530,7 @@ func (fr *Frame) invoke(st *State, call ssa.CallInstruction) []Term {
 		vc.older(st, r, rs)
 		res = append(res, r)
 	}
-	vc.callSyms[mkey] = append(vc.callSyms[mkey], res...)
+	vc.recordCallSyms(mkey, sig, res)
 	fr.assumeIdiom(st, sig, res, mkey)
 	return res
 }
@@ -433,7 +549,7 @@ func (vc *VC) pureMethodTerms(st *State, m *types.Func, recv Term, args []Term) 
 		sorts = append(sorts, vc.sortOf(sig.Params().At(i).Type()))
 	}
 	var res []Term
-	all := append([]Term{recv, vc.osOf(st, recv)}, args...)
+	all := append([]Term{recv, vc.osOfFacet(st, declaringIface(m), recv)}, args...)
 	for i := 0; i < sig.Results().Len(); i++ {
 		rt := sig.Results().At(i).Type()
 		f := "m_" + sanitize(mkey)
@@ -443,7 +559,7 @@ func (vc *VC) pureMethodTerms(st *State, m *types.Func, recv Term, args []Term) 
 		vc.sc.DeclFun(f, sorts, vc.sortOf(rt))
 		r := sx(f, all...)
 		if vc.sortOf(rt) == "Slice" {
-			vc.sc.Assume(st.reach, And(sx("<=", "0", sx("s-len", r)), sx("<=", "0", sx("s-off", r)), sx("<=", sx("s-len", r), sx("s-cap", r)), sx("<", sx("birth", sx("root", sx("s-base", r))), st.clk)))
+			vc.sc.Assume(st.reach, And(sx("<=", "0", sx("s-len", r)), sx("<=", sx("s-len", r), sx("s-cap", r)), sx("<", sx("birth", sx("root", vc.sptr(r))), st.clk)))
 		}
 		res = append(res, r)
 	}
@@ -465,8 +581,7 @@ func (fr *Frame) dynamicCall(st *State, call ssa.CallInstruction, args []Term) [
 		vc.older(st, r, rs)
 		res = append(res, r)
 	}
-	key := "dyn:" + describe(c.Value, 0)
-	vc.callSyms[key] = append(vc.callSyms[key], res...)
+	vc.recordCallSyms("dyn:"+describe(c.Value, 0), sig, res)
 	return res
 }
 
@@ -650,7 +765,7 @@ func (fr *Frame) appendOp(st *State, call ssa.CallInstruction, argVals []ssa.Val
 	newCap := vc.sc.Fresh(fr.prefix+"appcap", "Int")
 	vc.sc.Def(sx(">=", newCap, newLen))
 	res := vc.sc.Fresh(fr.prefix+"appended", "Slice")
-	vc.sc.Def(Eq(res, sx("mk-slice", nb, "0", newLen, newCap)))
+	vc.sc.Def(Eq(res, vc.mkSlice(nb, newLen, newCap)))
 	if isByteSlice(argVals[0].Type()) {
 		if tIsString {
 			vc.sc.Def(Eq(sx("bstr", res), sx("str.++", sx("bstr", s), t)))
@@ -672,20 +787,20 @@ func (fr *Frame) appendOp(st *State, call ssa.CallInstruction, argVals []ssa.Val
 		nbb := nb
 		vc.havocs = append(vc.havocs, havocEvent{key: lf.key, old: old, new: nm, pred: func(a Term) Term { return Eq(sx("root", a), nbb) }})
 		// old part
-		src := lf.addr(sx("elem", sx("s-base", s), sx("+", sx("s-off", s), "?i")))
+		src := lf.addr(sx("elem", vc.sptr(s), "?i"))
 		dst := lf.addr(sx("elem", nb, "?i"))
 		vc.sc.Def(fmt.Sprintf("(forall ((?i Int)) (! (=> (and (<= 0 ?i) (< ?i (s-len %s))) (= (select %s %s) (select %s %s))) :pattern (%s)))", s, nm, dst, old, src, dst))
 		// appended part
 		if constN >= 0 && constN <= 6 {
 			for j := int64(0); j < constN; j++ {
-				srcj := lf.addr(vc.elemAddr(sx("s-base", t), simplifyAdd(sx("s-off", t), IntLit(j))))
+				srcj := lf.addr(vc.elemAddr(vc.sptr(t), IntLit(j)))
 				dstj := lf.addr(vc.elemAddr(nb, simplifyAdd(sx("s-len", s), IntLit(j))))
 				vc.noteAddr(lf.key, srcj)
 				vc.noteAddr(lf.key, dstj)
 				vc.sc.Def(Eq(sx("select", nm, dstj), sx("select", old, srcj)))
 			}
 		} else {
-			src2 := lf.addr(sx("elem", sx("s-base", t), sx("+", sx("s-off", t), "?j")))
+			src2 := lf.addr(sx("elem", vc.sptr(t), "?j"))
 			dst2 := lf.addr(sx("elem", nb, sx("+", sx("s-len", s), "?j")))
 			vc.sc.Def(fmt.Sprintf("(forall ((?j Int)) (! (=> (and (<= 0 ?j) (< ?j (s-len %s))) (= (select %s %s) (select %s %s))) :pattern (%s)))", t, nm, dst2, old, src2, src2))
 		}
